@@ -34,14 +34,14 @@ SubsSmall == {{a} : a \in 1..8} \cup {{1, 2}, {1, 3}}
 CONSTANTS MaxBlockTxs, MaxReorgDepth, SimProfile
 
 VARIABLES hist, script
-mcvars == <<chain, txpool, stempool, cache, last, nsteps, hist, script>>
+mcvars == <<chain, txpool, stempool, cache, pending, last, nsteps, hist, script>>
 
 Proj == [txpool |-> txpool, stempool |-> stempool, height |-> Height]
 Step == IF last'.k = "Submit"
         THEN [k |-> "Submit", t |-> last'.t, stem |-> last'.stem, relay |-> last'.relay, res |-> last'.res,
               why |-> last'.why, evict |-> last'.evict, pre |-> last'.pre, allowed |-> last'.allowed, proj |-> Proj']
         ELSE [k |-> last'.k, d |-> last'.d, bs |-> last'.bs, proj |-> Proj']
-Record == script' = script /\ hist' = IF last'.k \in {"Submit", "Connect", "Reorg"} THEN Append(hist, Step) ELSE hist
+Record == script' = script /\ hist' = IF last'.k \in {"Submit", "Connect", "Reorg", "Header"} THEN Append(hist, Step) ELSE hist
 
 \* ---------------- exhaustive ----------------
 BlockChoices == UNION {kSubset(n, AtomIds) : n \in 0..MaxBlockTxs}
@@ -50,6 +50,7 @@ MCNextBase ==
   \/ \E t \in Subs, stem \in BOOLEAN : Submit(t, stem, TRUE)
   \/ \E t \in Subs : Submit(t, TRUE, FALSE)
   \/ \E B \in BlockChoices : ConnectBlock(B)
+  \/ \E B \in BlockChoices : HeaderFirst(B)
   \/ \E d \in 1..MaxReorgDepth : \E bs \in Branches(d + 1) : Reorg(d, bs)
   \/ ShortReorg /\ \E bs \in Branches(1) : Reorg(2, bs)
 MCInit == Init /\ hist = <<>> /\ script = 0
@@ -57,7 +58,7 @@ MCNext == MCNextBase /\ UNCHANGED <<hist, script>>
 MCNextRec == MCNextBase /\ Record
 MCSpecRec == MCInit /\ [][MCNextRec]_mcvars
 MCSpec == MCInit /\ [][MCNext]_mcvars
-View == <<chain, txpool, stempool, cache, last, nsteps>>
+View == <<chain, txpool, stempool, cache, pending, last, nsteps>>
 
 \* ---------------- simulation (behaviour generation) ----------------
 Rate(x) == FeeOf(x) \div WeightOf(TxOf(x))
@@ -85,11 +86,12 @@ SimSubmit ==
      /\ (last'.evict /\ last'.allowed # {}) => last'.victim = Guess(last'.pre, last'.allowed)
 SimConnect ==
   \E r \in {RandomElement(1..10)} :
-  \E B \in {IF r <= 3 /\ ValidBlock(Mineable, chain) THEN Mineable
+  \E hf \in {pending = <<>> /\ RandomElement(1..4) = 1} :
+  \E B \in {IF pending # <<>> THEN pending[1] ELSE IF r <= 3 /\ ValidBlock(Mineable, chain) THEN Mineable
              ELSE IF r <= 5 THEN {}
              ELSE IF r <= 7 /\ stempool # <<>> /\ ValidBlock(AtomsIn(stempool), chain) THEN AtomsIn(stempool)
              ELSE RandBlock(chain)} :
-     ConnectBlock(B)
+     IF hf THEN HeaderFirst(B) ELSE ConnectBlock(B)
 SimReorg ==
   \E d \in {IF Len(chain) >= 2 /\ RandomElement(1..3) = 1 THEN 2 ELSE 1} :
   \E short \in {ShortReorg /\ d = 2 /\ RandomElement(1..2) = 1} :
@@ -101,7 +103,7 @@ SimReorg ==
 SimNext ==
   \E r \in {RandomElement(1..20)} :
   \E canConnect \in {Len(chain) < MaxBlocks} :
-  \E canReorg \in {Len(chain) >= 1 /\ Len(chain) < MaxBlocks} :
+  \E canReorg \in {Len(chain) >= 1 /\ Len(chain) < MaxBlocks /\ pending = <<>>} :
   \E ps \in {IF SimProfile = "submit" THEN 20 ELSE IF SimProfile = "blocks" THEN 9 ELSE 14} :
   \E pc \in {IF SimProfile = "blocks" THEN 15 ELSE 18} :
      IF r <= ps \/ ~canConnect THEN SimSubmit
@@ -113,6 +115,8 @@ MCSimSpec == MCInit /\ [][SimNext /\ Record]_mcvars
 Sub(t) == [k |-> "Submit", t |-> t, stem |-> FALSE]
 StemSub(t) == [k |-> "Submit", t |-> t, stem |-> TRUE]
 Blk(b) == [k |-> "Connect", b |-> b]
+Rg(d, bs) == [k |-> "Reorg", d |-> d, bs |-> bs]
+Hdr(b) == [k |-> "Header", b |-> b]
 Scripts == <<
   \* 1: two pool parents (1 and 2), child 4 spending an output of each, capacity 2 forces an eviction
   <<Sub({1}), Sub({2}), Sub({4}), Sub({19}), Sub({12})>>,
@@ -123,8 +127,16 @@ Scripts == <<
   \* 4: coinbase maturity and lock height one block early / at the boundary (C13 pool clause)
   <<Sub({9}), Sub({10}), Sub({14}), StemSub({9}), Blk({}), Sub({9}), Sub({10}), Sub({14}), Blk({9}), Sub({14}), StemSub({14}), Sub({14})>>,
   \* 5: duplicates, aggregated forms of pooled txs, deaggregation, conflicts
-  <<Sub({1}), Sub({1}), Sub({1, 2}), Sub({2}), Sub({1, 3}), Sub({3}), Sub({5}), StemSub({5}), Sub({3, 12}), Blk({1, 2}), Sub({1}), Sub({12})>>
->>
+  <<Sub({1}), Sub({1}), Sub({1, 2}), Sub({2}), Sub({1, 3}), Sub({3}), Sub({5}), StemSub({5}), Sub({3, 12}), Blk({1, 2}), Sub({1}), Sub({12})>>,
+  \* 6: reorgs: a confirmed tx returns through the reorg cache; a conflicting spend on the new branch keeps it out
+  <<Sub({1}), Sub({2}), Blk({1}), Rg(1, <<{}, {}>>), Blk({2}), Rg(1, <<{16}, {}>>), Sub({3})>>,
+  \* 7: header-first propagation: the header chain is one ahead of the body chain; maturity and lock height
+  \*    stay relative to the body head
+  <<Hdr({}), Sub({9}), Sub({10}), StemSub({9}), Sub({14}), Sub({2}), Blk({}), Sub({9}), Sub({10}), Hdr({9}), Sub({14}), StemSub({14}),
+    Blk({9}), Sub({14})>>
+>> \o (IF ShortReorg THEN <<
+  \* 8: a heavier but shorter fork lowers the height: the spend of coinbase 5 admitted at maturity is immature again
+  <<Blk({}), Blk({}), Sub({14}), Sub({10}), Rg(2, <<{}>>), Sub({19}), Blk({}), Sub({14})>> >> ELSE <<>>)
 ScriptInit == Init /\ hist = <<>> /\ script \in 1..Len(Scripts)
 ScriptNext ==
   /\ nsteps < Len(Scripts[script])
@@ -132,6 +144,8 @@ ScriptNext ==
      IN IF a.k = "Submit"
         THEN /\ Submit(a.t, a.stem, TRUE)
              /\ (last'.evict /\ last'.allowed # {}) => last'.victim = Guess(last'.pre, last'.allowed)
+        ELSE IF a.k = "Reorg" THEN Reorg(a.d, a.bs)
+        ELSE IF a.k = "Header" THEN HeaderFirst(a.b)
         ELSE ConnectBlock(a.b)
   /\ Record
 MCScriptSpec == ScriptInit /\ [][ScriptNext]_mcvars
@@ -140,7 +154,7 @@ ScriptDone == script > 0 /\ nsteps = Len(Scripts[script])
 Done == nsteps = MaxSteps \/ ScriptDone
 Behaviour == [cfg |-> [trunk |-> Trunk, maxpool |-> MaxPool, maxstem |-> MaxStem, mineweight |-> MineWeight,
                        feebase |-> FeeBase, maturity |-> Maturity],
-              atoms |-> Atoms, steps |-> hist]
+              atoms |-> Atoms, steps |-> hist, script |-> script]
 Emit == Done => PrintT(<<"POOLBEH", ToJson(Behaviour)>>)
 \* for configurations that are EXPECTED to violate an invariant (code-order fee test, careless eviction):
 \* print the behaviour that reaches the violation so that it can be replayed on the real code
